@@ -331,9 +331,11 @@ impl<'a> DocGen<'a> {
             let rootname: String = body[1..].chars().take_while(|c| !c.is_whitespace() && *c != '>' && *c != '/').collect();
             out.push_str(&format!("<!DOCTYPE {}", rootname));
             let attlist = if self.rng.pct(50) {
-                match self.rng.below(3) {
+                match self.rng.below(4) {
                     0 => "<!ATTLIST b dflt CDATA \"dv\">",
                     1 => "<!ATTLIST a dflt CDATA \"d v\"><!ATTLIST c fx CDATA #FIXED \"k\">",
+                    // several defaults on one element: their order among themselves is part of every `@*` answer
+                    2 => "<!ATTLIST b dflt CDATA \"dv\" d2 CDATA \"v2\" d3 CDATA \"v3\"><!ATTLIST a dflt CDATA \"dv\" d2 CDATA \"v2\">",
                     _ => "<!ATTLIST f dflt CDATA \"dv\"><!ATTLIST b opt CDATA #IMPLIED>",
                 }
             } else {
@@ -341,7 +343,10 @@ impl<'a> DocGen<'a> {
             };
             if !self.entities.is_empty() {
                 let notation = if self.rng.pct(40) { "<!NOTATION n1 SYSTEM \"s1\"><!NOTATION n2 PUBLIC \"p2\">" } else { "" };
-                out.push_str(&format!(" [<!ENTITY e1 \"v1\"><!ENTITY e2 \"w &#38; w\">{}{}]", notation, attlist));
+                // replacement text with characters of two, three and four bytes: lengths and offsets of a merged
+                // text node that contains the reference count characters, not bytes
+                let v1 = self.rng.ps(&["v1", "v1", "é𝒳", "a\u{301}é"]);
+                out.push_str(&format!(" [<!ENTITY e1 \"{}\"><!ENTITY e2 \"w &#38; w\">{}{}]", v1, notation, attlist));
             } else if !attlist.is_empty() {
                 out.push_str(&format!(" [{}]", attlist));
             }
@@ -487,6 +492,10 @@ fn query_expr(rng: &mut Rng, failing: bool) -> String {
         "//processing-instruction('t')",
         "//processing-instruction('pi-x')",
         "count(//processing-instruction())",
+        // which attribute is the last / the second one (attributes present through DTD defaults included)
+        "name(//b/@*[last()])",
+        "string(//a/@*[2])",
+        "name(//*/@*[2])",
     ];
     let bad: &[&str] = &[
         "//*[count(1)]",
